@@ -137,6 +137,8 @@ func errClass(err error) string {
 		return "err=notfound"
 	case strings.Contains(m, "a scenario may hold at most"):
 		return "err=toomany"
+	case strings.Contains(m, "weights are too large"), strings.Contains(m, "weight is too large"):
+		return "err=toolarge"
 	}
 	return "err=other:" + esc(m)
 }
